@@ -26,6 +26,17 @@ type Ctx struct {
 	borrowing []uintptr
 }
 
+// curProg: the program being analysed (for name lookups of re-bound fields in free helper functions).
+var curProg *core.Prog
+
+// fieldName: the name the rules know a field by (see core.Prog.OldFieldName).
+func fieldName(v *types.Var) string {
+	if curProg != nil {
+		return curProg.OldFieldName(v)
+	}
+	return v.Name()
+}
+
 // PropFunc decides one property on one loaded variant.
 type PropFunc func(c *Ctx)
 
@@ -68,6 +79,7 @@ func Run(id string, p *core.Prog, tier string) (res *core.Result) {
 			res.Finish()
 		}
 	}()
+	curProg = p
 	if p.Converted == nil {
 		names := make([]string, 0, len(knownFuncs))
 		for n := range knownFuncs {
@@ -76,8 +88,10 @@ func Run(id string, p *core.Prog, tier string) (res *core.Result) {
 		sort.Strings(names)
 		p.AliasConverted(names)
 		// pure renames of functions, methods and fields (see core/shapes.go)
+		p.AliasRenamedTypes(knownTypeShapes)
 		p.AliasRenamed(knownFuncShapes, knownFuncs)
 		p.AliasRenamedFields(knownFieldShapes)
+		p.AliasRenamedGlobals(knownGlobalShapes)
 	}
 	f(&Ctx{P: p, R: res, Tier: tier, borrowing: []uintptr{reflect.ValueOf(f).Pointer()}})
 	res.Finish()
@@ -329,6 +343,29 @@ func GenShapes(p *core.Prog) string {
 		}
 		for i := 0; i < st.NumFields(); i++ {
 			fmt.Fprintf(&b, "\t%q: %q,\n", tn+"."+st.Field(i).Name(), p.FieldShape(tn, st.Field(i)))
+		}
+	}
+	b.WriteString("}\n\nvar knownTypeShapes = map[string]string{\n")
+	for _, tn := range tnames {
+		o, ok := scope.Lookup(tn).(*types.TypeName)
+		if !ok || o.IsAlias() {
+			continue
+		}
+		if n, isN := o.Type().(*types.Named); isN {
+			if _, isSt := n.Underlying().(*types.Struct); isSt {
+				fmt.Fprintf(&b, "\t%q: %q,\n", tn, p.TypeShape(n))
+			}
+		}
+	}
+	b.WriteString("}\n\nvar knownGlobalShapes = map[string]string{\n")
+	gnames := make([]string, 0, len(p.SPkg.Members))
+	for n := range p.SPkg.Members {
+		gnames = append(gnames, n)
+	}
+	sort.Strings(gnames)
+	for _, n := range gnames {
+		if g, ok := p.SPkg.Members[n].(*ssa.Global); ok && !strings.HasPrefix(n, "init$") {
+			fmt.Fprintf(&b, "\t%q: %q,\n", n, p.GlobalShape(g))
 		}
 	}
 	b.WriteString("}\n")
